@@ -1,4 +1,4 @@
--- GENERATED from /tmp/wt_input by harness/translate on every run. Do not edit.
+-- GENERATED from /repo by harness/translate on every run. Do not edit.
 import VtlModel.Input.Spec
 
 namespace VtlModel.Input.Gen
